@@ -102,6 +102,11 @@ type c10Scenario struct {
 	End        int   `json:"end"`
 	CPUBudget  int   `json:"cpu_budget_s"`
 	MemLimitMB int   `json:"mem_limit_mb"`
+	// WitnessFile: instead of generated inputs, serve the bytes of this file once as a PDF response
+	// (recorded witnesses of listed findings do not depend on the generators)
+	WitnessFile string `json:"witness_file,omitempty"`
+	// DumpTo: write the body of input Start to this file and exit (used to record a witness)
+	DumpTo string `json:"dump_to,omitempty"`
 }
 
 func rssBytes() int64 {
@@ -553,6 +558,10 @@ func c10Child(scPath string) int {
 	}
 	dir := os.Getenv("VZ_CHILD_DIR")
 	c10LoadSamples()
+	if sc.DumpTo != "" {
+		os.WriteFile(sc.DumpTo, c10GenCase(sc.Seed, sc.Start).Body, 0o644)
+		return 0
+	}
 	rep := newReport()
 	zenoConfig(dir, false, func(c *config.Config) {
 		c.WorkersCount = 2
@@ -609,6 +618,10 @@ func c10Child(scPath string) int {
 		caseCPUStart.Store(cpuNow())
 		cur.Store(int64(i))
 		c := c10GenCase(sc.Seed, i)
+		if sc.WitnessFile != "" {
+			b, _ := os.ReadFile(sc.WitnessFile)
+			c = c10Case{Status: 200, Header: http.Header{"Content-Type": {"application/pdf"}}, Body: b, Kind: "recorded-witness", SeedURL: "https://docs.example/witness.pdf"}
+		}
 		// configuration is part of the input space: every fifth input is served to a crawler that does not
 		// capture assets and is at its hop limit (the stages are idle between inputs, so the two word-sized
 		// stores do not race with them)
@@ -701,15 +714,28 @@ func c10(r *vc.Run) int {
 	var maxCPU atomic.Int64
 	var confirmedMu sync.Mutex
 	confirmed := map[string]bool{}
-	// the recorded witness of the listed pdfcpu finding is replayed on every run, whatever VERIF_SEED is
-	witnessSeed, witnessIdx := int64(1), 43646
-	if r.IsKnown("hang@internal/pkg/postprocessor/extractor.PDF->pdfcpu/pdfcpu/pkg/api") && !(r.Seed == witnessSeed && witnessIdx < total) {
-		sc := c10Scenario{Seed: witnessSeed, Start: witnessIdx, End: witnessIdx + 1, CPUBudget: budget, MemLimitMB: memMB}
-		dir := filepath.Join(r.Scratch, "c10-witness")
+	// the recorded witnesses of the listed pdfcpu findings (committed files, independent of the generators)
+	// are replayed on every run, whatever VERIF_SEED is
+	wdir := filepath.Join(os.Getenv("VERIF_DIR"), "witnesses")
+	if wf := filepath.Join(wdir, "C10-pdfcpu-parseArray-hang.pdf"); r.IsKnown("hang@internal/pkg/postprocessor/extractor.PDF->pdfcpu/pdfcpu/pkg/api") && fileExists(wf) {
+		sc := c10Scenario{Seed: 1, Start: 0, End: 1, CPUBudget: budget, MemLimitMB: memMB, WitnessFile: wf}
+		dir := filepath.Join(r.Scratch, "c10-witness-hang")
 		runChild(os.Getenv("VZ_BIN"), "c10", sc, dir, 10*time.Minute)
 		if hb, err := os.ReadFile(filepath.Join(dir, "hang")); err == nil && len(hb) > 0 {
 			st, _ := os.ReadFile(filepath.Join(dir, "hang-stacks.txt"))
-			r.Violation("hang@"+hangFrame(string(st)), fmt.Sprintf("witness input %d of seed %d still spins in %s", witnessIdx, witnessSeed, hangFrame(string(st))), c10Witness(witnessSeed, witnessIdx))
+			r.Violation("hang@"+hangFrame(string(st)), fmt.Sprintf("recorded witness %s still spins in %s", filepath.Base(wf), hangFrame(string(st))), map[string]any{"witness_file": wf})
+		} else {
+			r.Note("recorded witness %s no longer hangs", filepath.Base(wf))
+		}
+	}
+	if wf := filepath.Join(wdir, "C10-pdfcpu-out-of-memory.pdf"); fileExists(wf) {
+		sc := c10Scenario{Seed: 1, Start: 0, End: 1, CPUBudget: budget, MemLimitMB: memMB, WitnessFile: wf}
+		dir := filepath.Join(r.Scratch, "c10-witness-oom")
+		res := runChild(os.Getenv("VZ_BIN"), "c10", sc, dir, 10*time.Minute)
+		if crashed, excerpt := res.Crashed(); crashed {
+			r.Violation("crash/"+crashSig(res.Stderr), fmt.Sprintf("recorded witness %s killed the process: %s", filepath.Base(wf), truncate(excerpt, 300)), map[string]any{"witness_file": wf})
+		} else {
+			r.Note("recorded witness %s no longer crashes", filepath.Base(wf))
 		}
 	}
 	parallel(nWorkers, nWorkers, func(w int) {
@@ -738,6 +764,7 @@ func c10(r *vc.Run) int {
 				hangs++
 				if r.IsKnown(sig) || already {
 					// a listed finding, or a call site already confirmed in this run: no second confirmation
+					r.Note("listed/confirmed hang %s at input %d of seed %d", sig, idx, r.Seed)
 					r.Violation(sig, what, c10Witness(r.Seed, idx))
 				} else {
 					// confirm alone with 5x the CPU budget and twice the memory
@@ -847,3 +874,5 @@ func c10(r *vc.Run) int {
 }
 
 var _ = bytes.NewReader
+
+func fileExists(p string) bool { _, err := os.Stat(p); return err == nil }
